@@ -1387,6 +1387,20 @@ func genC10(r *rng, n int, emit func(string)) {
 		emit(fmt.Sprintf("digint %d", d))
 		emit(fmt.Sprintf("rand x00 %d", d))
 	}
+	// the two ends of the counter range, every window: a loop over a window must end there too
+	for k := uint64(0); k <= 12; k++ {
+		for _, sk := range []int{0, 1, 2, 9, 10, 11} {
+			for _, code := range []string{"000000", "abcdef", "287082"} {
+				emit(fmt.Sprintf("vhotp %s %s %d 6,30,%d,0", secret, hxs(code), ^uint64(0)-k, sk))
+				emit(fmt.Sprintf("vhotp %s %s %d 6,30,%d,0", secret, hxs(code), k, sk))
+			}
+			// uint64(t.Unix()) of an instant before the epoch is at the top of the range (period 1)
+			emit(fmt.Sprintf("vtotp %s %s %d,0,0,0 6,1,%d,0", secret, hxs("000000"), -int64(k)-1, sk))
+			emit(fmt.Sprintf("vtotp %s %s %d,0,0,0 6,1,%d,0", secret, hxs("000000"), int64(k), sk))
+		}
+		emit(fmt.Sprintf("vhotp %s %s %d -", secret, hxs("000000"), ^uint64(0)-k))
+		emit(fmt.Sprintf("ghotp %s %d -", secret, ^uint64(0)-k))
+	}
 	emit("purl -")
 	emit("listsuites")
 	// 64 KiB strings
